@@ -20,7 +20,7 @@ HDR_RAY = """From Coq Require Import ZArith List Bool Reals PrimFloat.
 From FT.lib Require Import Num Arr ArrLemmas NumArr.
 From FT.gen Require Import Common Interp2d Interp3d FteikCommon Ray2d Ray3d.
 From FT.proofs Require Import NumFLaws Ray2dProofs.
-From FT.proofs Require Ray3dProofs.
+From FT.proofs Require Ray3dProofs RaySafety2d RaySafety3d.
 Import ListNotations.
 Open Scope Z_scope.
 """
@@ -29,7 +29,7 @@ HDR_SAFE = """From Coq Require Import ZArith List Bool Reals PrimFloat.
 From FT.lib Require Import Num Arr ArrLemmas NumArr.
 From FT.gen Require Import Common Interp2d Interp3d Vinterp2d Vinterp3d Fteik2d Fteik3d Ray2d Ray3d.
 From FT.proofs Require Import NumFLaws SafetyTools Safety2d SafetyInterp Ray2dProofs.
-From FT.proofs Require Safety3d Ray3dProofs.
+From FT.proofs Require Safety3d Ray3dProofs RaySafety2d RaySafety3d.
 Import ListNotations.
 Open Scope Z_scope.
 """
@@ -326,6 +326,11 @@ Open Scope Z_scope.
             ("endpoints_3d", "Ray3dProofs.ray3d_core_endpoints", "3D"),
             ("vertices_in_hull_2d", "Ray2dProofs.ray2d_vertices_in_hull", "exact arithmetic: every stored vertex lies inside the hull (clamping, grid magnetism and recomputed cell bounds included)"),
             ("vertices_in_hull_3d", "Ray3dProofs.ray3d_vertices_in_hull", "3D"),
+            ("shrink_factor_range", "RaySafety2d.shrink_range", "exact arithmetic: the step-shortening factor of a point inside its cell box lies in [0, 1]"),
+            ("shrink_factor_attained", "RaySafety2d.shrink_attained", "and is either 1 (the full step stays inside the box) or exactly the fraction that brings one coordinate onto a face of the box"),
+            ("shrink_full_step_inside", "RaySafety2d.shrink_ge1_inside", "a factor >= 1 is 1 and the full step stays inside the box"),
+            ("shortened_step_ends_on_a_face", "RaySafety2d.vertex_on_grid_line_2d", "a shortened step (factor < 1) ends, after both clamps, exactly on a face of the current cell"),
+            ("vertices_on_grid_lines_2d", "RaySafety2d.ray2d_vertices_on_grid_lines", "whole ray, grid magnetism included: every interior vertex of a grid-honouring 2D ray has a coordinate that is exactly an axis node"),
         ],
         "examples": [],
     },
@@ -351,6 +356,15 @@ Open Scope Z_scope.
             ("single_node_axis_refuted", "SafetyInterp.interp2d_ok_single_node_refuted", "the hypothesis 2 <= nx is needed: with a one-sample axis the kernel reads x[-2] out of range (known finding F13), witness by vm_compute"),
             ("ray_buffer_2d", "Ray2dProofs.ray2d_core_count_range", "ray buffer: every returned count is below max_step and the buffer is never reshaped"),
             ("ray_buffer_3d", "Ray3dProofs.ray3d_core_count_range", "3D"),
+            ("shrink_ok", "RaySafety2d.shrink_ok_true_gen", "the step-shortening helper: masked selections have equal lengths, no index leaves its array"),
+            ("ray2d_core_ok", "RaySafety2d.ray2d_core_ok_true", "the whole 2D tracing loop (cell lookup, gradient evaluation, vertex buffer) for every fuel, end point, source and step; grid-honouring mode needs no axis node below the first (axis_min), which every ascending axis satisfies"),
+            ("ray2d_ok", "RaySafety2d.ray2d_1_ok_true", "the public single-ray entry point, reversal of the buffer prefix included"),
+            ("ray3d_core_ok", "RaySafety3d.ray3d_core_ok_true", "3D"),
+            ("ray3d_ok", "RaySafety3d.ray3d_1_ok_true", "3D entry point"),
+            ("ray_ok_binary64_2d", "RaySafety2d.ray2d_core_ok_true_F", "binary64 instance (NaN included)"),
+            ("ray_ok_binary64_3d", "RaySafety3d.ray3d_core_ok_true_F", "3D"),
+            ("ray_axis_min_needed", "RaySafety2d.ray2d_core_ok_axis_min_refuted", "axis_min is needed in grid-honouring mode: with z = [0; -2^-30; 1] the magnetism snaps below z[0] and z[-1] is read (witness by vm_compute; such an axis is never produced by the API, whose axes ascend)"),
+            ("ray_max_step_0_refuted", "RaySafety2d.ray2d_core_ok_max_step_0_refuted", "max_step >= 1 is needed: a zero-row buffer is written at row 0"),
         ],
         "examples": [],
     },
